@@ -203,6 +203,41 @@ def rule_descent(ctx):
                         else:
                             out.add((leaf, via_))
                     continue
+                # a combinator that applies a closure (`opt.map(|i| v.swap_remove(i))`): the result is what the closure returns - parts of
+                # what it captured, or of the element it is applied to
+                if name in ("map", "and_then", "map_or", "map_or_else", "unwrap_or_else", "or_else", "then", "filter_map", "find_map", "fold") and \
+                        (t_.get("callee") or "").startswith(("core::", "alloc::", "std::")) and depth < 6:
+                    handled = False
+                    for a_ in t_["args"][1:]:
+                        ra = op_root(a_)
+                        if ra is None:
+                            continue
+                        for oc in flow_.origins(ra, ()):
+                            if oc[0] != "agg":
+                                continue
+                            rvc = flow_.agg_at(oc)
+                            if not rvc.get("closure"):
+                                continue
+                            bodies_ = [b_ for b_ in fx.by_path.get(rvc["closure"], []) if "{promoted" not in b_["key"]]
+                            for b_ in bodies_:
+                                if b_["key"] in stack:
+                                    continue
+                                handled = True
+                                for leaf, via_ in ret_summary(b_["key"], depth + 1, stack):
+                                    if leaf[0] == "arg" and leaf[1] == 1 and leaf[2] and str(leaf[2][0]).isdigit() and int(leaf[2][0]) < len(rvc["ops"]):
+                                        cap = rvc["ops"][int(leaf[2][0])]
+                                        rc = op_root(cap)
+                                        if rc is not None:
+                                            for l2, v2 in resolve(key, rc, tuple(e["n"] for e in cap["pl"]["p"] if isinstance(e, dict) and "f" in e), depth, stack, seen):
+                                                out.add((l2, via_ | v2))
+                                    elif leaf[0] == "arg" and t_["args"] and op_root(t_["args"][0]) is not None:
+                                        a0_ = t_["args"][0]
+                                        for l2, v2 in resolve(key, op_root(a0_), tuple(e["n"] for e in a0_["pl"]["p"] if isinstance(e, dict) and "f" in e), depth, stack, seen):
+                                            out.add((l2, via_ | v2))
+                                    else:
+                                        out.add((leaf, via_))
+                    if handled:
+                        continue
                 a0 = t_["args"][0] if t_["args"] else None
                 r_ = op_root(a0) if a0 else None
                 sub = set()
